@@ -79,8 +79,8 @@ def _fail_node(spec: dict):
 class C04(Property):
     pid = "C04"
     title = "Every well-formed workflow terminates, and failures terminate every step"
-    lean_targets = ["SFV.Props.C04"]
-    props_files = ["SFV/Props/C04.lean"]
+    lean_targets = ["SFV.Props.C04", "SFV.Props.C04Loop"]
+    props_files = ["SFV/Props/C04.lean", "SFV/Props/C04Loop.lean"]
     drivers = ["Drivers/Net.lean"]
     translators = []
     rule = ("random well-formed DAG workflows (sfv.rt.wfgen: 2..12 nodes from the real step classes — transformers, scatter/gather "
@@ -92,6 +92,8 @@ class C04(Property):
             "task. Compared with the Lean model: executor outcome and (failure-free) the final status of every step. Non-trivial = "
             "workflow with >= 3 nodes.")
     trusted_base = [
+        "hand-written model lean/SFV/Model/LoopComb.lean of the reading protocol of LoopCombinatorStep.run, compared with the real "
+        "step on the real streams of its input ports (terminated flag, unread tokens) in every run that contains a loop",
         "hand-written transition-system model lean/SFV/Model/Exec.lean of StreamFlowExecutor.run/_wait_outputs/_cancel/close and "
         "BaseStep.terminate/_get_status/_reduce_statuses; compared on every run (outcome, statuses)",
         "modelled, not verified: asyncio task/cancellation semantics, database awaits, the internals of the job pipeline, and the "
